@@ -66,7 +66,8 @@ def header_style(rng):
     return f
 
 
-JUNK = ["", "x", "12.5", "n/a", "hello, world", 'say "hi"', "2020-01-01", "-1", "Buy", "ünï"]
+JUNK = ["", "x", "12.5", "n/a", "hello, world", 'say "hi"', "2020-01-01", "-1", "Buy", "ünï", "#A-1", "# note", ";x", "//c", "%", "'q", "=1+1"]
+MEMOS = ["", "", "", "note", "#3 trim", "# lot 7", "; semi", "-dash", "a, b", "ünï", "//x", "\"q\""]
 
 
 def relayout_files(rng, rows):
@@ -194,6 +195,9 @@ def run_c07(tier):
     for i in range(n):
         rng = common.rng_for(seed, "C07", i)
         hh = gen.HistoryGen(rng, c07_profile(rng)).gen()
+        if i % 2 == 0:
+            for r in hh["rows"]:
+                r["memo"] = rng.choice(MEMOS)
         pop.append((common.case_id(seed, "C07", i), "base #%d" % i, hh))
     nsh = common.NPROC * 4
     shards = [{"K": K, "pop": s} for s in (pop[i::nsh] for i in range(nsh)) if s]
